@@ -218,6 +218,18 @@ IDENTITIES = [
     ("{x} + {y} - {x}", "{y} - {x}"),
     ("{x}:{y}", "{y}:{x}"),
     ("w ~ {x} * {y} | {z}", "w ~ {x} + {y} + {x}:{y} | {z}"),
+    # documented left-associativity / precedence, against explicit grouping and against the documented expansions
+    ("{x} * {y} / {z}", "({x} * {y}) / {z}"),
+    ("{x} * {y} / {z}", "{x} + {y} + {x}:{y} + {x}:{y}:{z}"),
+    ("{x} %in% {y} / {z}", "({x} %in% {y}) / {z}"),
+    ("{x} / {y} * {z}", "({x} / {y}) * {z}"),
+    ("{x} / {y} %in% {z}", "({x} / {y}) %in% {z}"),
+    ("{x} - {y} + {z}", "({x} - {y}) + {z}"),
+    ("{x} : {y} * {z}", "({x}:{y}) * {z}"),
+    ("{x} * {y} : {z}", "{x} * ({y}:{z})"),
+    ("{x} / {y} : {z}", "{x} / ({y}:{z})"),
+    ("{x} + {y} : {z} ** 2", "{x} + ({y}:({z} ** 2))"),
+    ("{x} + {y} * {z}", "{x} + ({y} * {z})"),
 ]
 
 
@@ -241,10 +253,10 @@ def _norm(spec, **kw):
 
 def identity(i: int, x: int, y: int, z: int) -> bool:
     """
-    pre: 0 <= i < 12 and 0 <= x < 3 and 0 <= y < 3 and 0 <= z < 3 and i == __SHARD__
+    pre: 0 <= i < 23 and 0 <= x < 3 and 0 <= y < 3 and 0 <= z < 3 and i == __SHARD__
     post: _
     """
-    i, x, y, z = _pick(i, 0, 11), _pick(x, 0, 2), _pick(y, 0, 2), _pick(z, 0, 2)
+    i, x, y, z = _pick(i, 0, 22), _pick(x, 0, 2), _pick(y, 0, 2), _pick(z, 0, 2)
     names = ["a", "b", "c"]
     l, r = IDENTITIES[i]
     sub = dict(x=names[x], y=names[y], z=names[z])
